@@ -114,10 +114,10 @@ Proof.
   destruct (expand tp (t0 :: ts)) as [l|]; [|discriminate]. intro H. split; [discriminate|]. eauto.
 Qed.
 
-Lemma ms_keys_of md : forall m, In m (str_sort (map fst md)) -> dict_get md m <> None.
-Proof. intros m H. apply str_sort_in in H. intro E. apply dict_get_none in E. contradiction. Qed.
+Lemma ms_keys_of (md : mdict) : forall m, In m (str_sort (map fst md)) -> dict_get md m <> None.
+Proof. intros m H. apply str_sort_in1 in H. intro E. apply dict_get_none in E. apply E. exact H. Qed.
 
-Lemma ms_nonempty md : all_topics md <> [] -> (0 < length (str_sort (map fst md)))%nat.
+Lemma ms_nonempty (md : mdict) : all_topics md <> [] -> (0 < length (str_sort (map fst md)))%nat.
 Proof.
   intro H. rewrite str_sort_length, map_length. destruct md; [|cbn; lia]. now destruct H.
 Qed.
@@ -139,11 +139,11 @@ Proof.
     + intros t p H. apply (Permutation_in _ (Permutation_sym (tp_sort_perm l))) in H.
       apply (expand_in _ _ _ _ _ Ex) in H. destruct H as [H _]. rewrite <- E in H.
       apply all_topics_spec in H; [|exact N]. apply some_subscriber_spec in H. destruct H as (m & H1 & H2).
-      exists m. split; [now apply str_sort_in | assumption].
+      exists m. split; [now apply str_sort_in2 | assumption].
     + rewrite Ha. split; [discriminate|]. intros t Ht Hn.
       assert (X : expand tp (t0 :: ts) = None) by (apply expand_none; eauto). congruence.
   - split; [reflexivity|]. apply expand_none in Ex. destruct Ex as (t & H1 & H2). exists t.
-    split; [now apply str_sort_in | assumption].
+    split; [now apply str_sort_in2 | assumption].
 Qed.
 
 (* ---- C15_exactly_one ---- *)
@@ -158,12 +158,12 @@ Proof.
                (fun m Hm => proj1 (str_sort_in _ _) Hm) Hl t p).
     rewrite assigned_count_nil. cbn [Nat.add].
     rewrite <- (proj1 (Permutation_count_occ tp_eq_dec _ _) (tp_sort_perm l)).
-    rewrite (expand_count tp _ l (dedup_nodup _) Ex).
+    rewrite (expand_count tp (all_topics md) l (dedup_nodup _) Ex).
     destruct (str_mem t (all_topics md)) eqn:Em.
     + apply str_mem_in in Em. apply all_topics_spec in Em; [|exact N]. now rewrite Em.
     + destruct (some_subscriber md t) eqn:Es; [|reflexivity].
       apply all_topics_spec in Es; [|exact N]. apply str_mem_in in Es. congruence.
-  - intros m Hm. apply str_sort_in.
+  - intros m Hm. apply str_sort_in1.
     refine (proj1 (rr_loop_sound md (str_sort (map fst md)) (tp_sort l) 0 [] a _ Hl) m Hm).
     split; [intros ? [] | intros ? ? []].
 Qed.
@@ -175,7 +175,7 @@ Proof.
   intros H m t Ht. apply round_robin_ok in H. destruct H as (Hne & l & Ex & Hl).
   assert (S : asg_sound md (str_sort (map fst md)) a).
   { refine (rr_loop_sound md (str_sort (map fst md)) (tp_sort l) 0 [] a _ Hl). split; [intros ? [] | intros ? ? []]. }
-  destruct (proj2 S m t Ht) as [H1 H2]. split; [now apply str_sort_in | assumption].
+  destruct (proj2 S m t Ht) as [H1 H2]. split; [now apply str_sort_in1 | assumption].
 Qed.
 
 Lemma parts_of_in_key (d : adict) t p : In p (parts_of d t) -> In t (map fst d).
@@ -212,9 +212,9 @@ Proof.
   - intros t p m Hin Hm. apply (Permutation_in _ (Permutation_sym (tp_sort_perm l))) in Hin.
     apply (expand_in _ _ _ _ _ Ex) in Hin. destruct Hin as [Hin _].
     apply all_topics_spec in Hin; [|exact N]. apply some_subscriber_spec in Hin. destruct Hin as (m0 & Hm0 & Hs).
-    rewrite (Hsame m m0 t); [assumption | now apply str_sort_in | assumption].
+    rewrite (Hsame m m0 t); [assumption | now apply str_sort_in1 | assumption].
   - exists 0%nat. intros j m _. reflexivity.
-  - eapply balanced_at_diff; [exact B | apply str_sort_in; assumption ..].
+  - eapply balanced_at_diff; [exact B | apply str_sort_in2; assumption ..].
 Qed.
 
 (* ---- C15_perm_invariant ---- *)
@@ -248,10 +248,11 @@ Proof.
   destruct (all_topics md') as [|t0' ts'] eqn:E'.
   { apply Permutation_sym, Permutation_nil in Pt. discriminate. }
   destruct (expand tp (t0 :: ts)) as [l|] eqn:Ex; destruct (expand tp' (t0' :: ts')) as [l'|] eqn:Ex'.
-  - assert (Pl : Permutation l l').
+  - assert (Nts : NoDup (t0 :: ts)) by (rewrite <- E; apply dedup_nodup).
+    assert (Nts' : NoDup (t0' :: ts')) by (rewrite <- E'; apply dedup_nodup).
+    assert (Pl : Permutation l l').
     { apply (Permutation_count_occ tp_eq_dec). intros [t p].
-      rewrite (expand_count tp _ l) by (rewrite <- ?E; auto using dedup_nodup).
-      rewrite (expand_count tp' _ l') by (rewrite <- ?E'; auto using dedup_nodup).
+      rewrite (expand_count tp _ l Nts Ex), (expand_count tp' _ l' Nts' Ex').
       replace (str_mem t (t0' :: ts')) with (str_mem t (t0 :: ts)).
       - destruct (str_mem t (t0 :: ts)); [|reflexivity].
         apply (Permutation_count_occ Z.eq_dec). now apply tp_equiv_parts.
